@@ -24,6 +24,10 @@ import (
 	"github.com/mark3labs/flyt/zzvrt/core"
 )
 
+type ctxT = context.Context
+
+func ctxBackground() context.Context { return context.Background() }
+
 type phase int
 
 const (
@@ -269,11 +273,15 @@ type H struct {
 	calls      []call
 	menu       func(h *H, c call) []answer // answers offered for this callback (index 0 = default)
 	onCall     func(h *H, c call)          // extra hook (cancellation injection etc.)
+	preCall    func(h *H, c call)          // runs before the reference comparison
 	nodes      map[*spec]flyt.Node
 	visits     map[*spec]int
 	diverged   bool // the run legitimately left the uncancelled reference (after a cancellation)
 	noRefCheck bool
 	sawCtx     bool
+	runNo      int
+	hist       []string
+	outcomeTag string
 }
 
 func newH(root *spec) *H {
@@ -288,6 +296,9 @@ func (h *H) on(c call) answer {
 	c.visit = h.visits[c.node] - 1
 	h.calls = append(h.calls, c)
 	core.Logf("call %s prep=%s exec=%s err=%v", c, descVal(c.prepVal), descVal(c.execVal), c.err)
+	if h.preCall != nil {
+		h.preCall(h, c)
+	}
 	if !h.noRefCheck && !h.diverged {
 		s, _, done := simulate(h.root, h.store, h.answers)
 		if done {
@@ -504,6 +515,8 @@ func (h *H) build(s *spec) flyt.Node {
 		n = &bareRetryKind{bareKind{h: h, s: s}}
 	case kBareFb:
 		n = &bareFbKind{bareKind{h: h, s: s}}
+	case kLog:
+		n = &logNode{BaseNode: flyt.NewBaseNode(), h: h, s: s}
 	default:
 		n = h.buildFunc(s)
 	}
@@ -603,4 +616,15 @@ func stdCheck(outcomeOf func() string) func(x *core.Execution) (string, []string
 		}
 		return outcomeOf(), pr
 	}
+}
+
+// countAction: how many callbacks of this run answered action a so far.
+func (h *H) countAction(a flyt.Action) int {
+	n := 0
+	for _, x := range h.answers {
+		if x.action == a && x.err == nil {
+			n++
+		}
+	}
+	return n
 }
